@@ -42,6 +42,7 @@ Record caller := mkCaller {
 }.
 
 Inductive wstate :=
+| WNotStarted                         (* Run has not started the strand goroutine (yet) *)
 | WIdle
 | WRun (i : nat) (n : nat) (o : op)   (* executing request n of caller i: inside the pool state *)
 | WExited.                            (* strandDone closed *)
@@ -69,6 +70,8 @@ Inductive label :=
 | LShutStrandDone       (* Shutdown: <-strandDone *)
 | LShutListener         (* Shutdown: listener closed, about to disconnectAll *)
 | LShutDisconnect       (* Shutdown: disconnectAll (pool state section) *)
+| LRunStart             (* Run is called: it starts the strand goroutine before anything else *)
+| LRunFail              (* Run returns early (net.Listen failed): close(done), the strand goroutine keeps running *)
 | LRunDone              (* Run returns: close(done) *)
 | LShutFinish.          (* Shutdown: <-done, returns *)
 
@@ -183,6 +186,17 @@ Definition step (s : state) (l : label) : option state :=
     | SDisconnect => Some (mkState (quit s) (worker s) (callers s) SWaitDone [] (run_done s))
     | _ => None
     end
+  | LRunStart =>
+    match worker s with
+    | WNotStarted => Some (set_worker s WIdle)
+    | _ => None
+    end
+  | LRunFail =>
+    match worker s with
+    | WNotStarted => None     (* the strand goroutine is started before any error can be returned *)
+    | _ => if run_done s then None
+           else Some (mkState (quit s) (worker s) (callers s) (shut s) (conns s) true)
+    end
   | LRunDone =>
     match worker s with
     | WExited =>
@@ -201,7 +215,7 @@ Definition step (s : state) (l : label) : option state :=
 Definition init_caller (p : bool * list op) : caller :=
   mkCaller (fst p) (snd p) CIdle OpQuery O false [].
 Definition init (progs : list (bool * list op)) : state :=
-  mkState false WIdle (map init_caller progs) SNot [] false.
+  mkState false WNotStarted (map init_caller progs) SNot [] false.
 
 Fixpoint exec (s : state) (ls : list label) : option state :=
   match ls with
@@ -232,7 +246,7 @@ Definition label_eqb_shutstart (l : label) : bool := match l with LShutStart => 
 (* all labels that could be enabled in s (for the executable progress check) *)
 Definition all_labels (s : state) : list label :=
   flat_map (fun i => [LStart i; LAccept i; LSendQuit i; LWaitDone i; LWaitQuit i]) (seq 0 (List.length (callers s)))
-  ++ [LExec; LWorkerQuit; LShutStart; LShutStrandDone; LShutListener; LShutDisconnect; LRunDone; LShutFinish].
+  ++ [LExec; LWorkerQuit; LShutStart; LShutStrandDone; LShutListener; LShutDisconnect; LRunStart; LRunFail; LRunDone; LShutFinish].
 Definition enabledb (s : state) (l : label) : bool :=
   match step s l with Some _ => true | None => false end.
 
@@ -245,12 +259,16 @@ Definition enabledb (s : state) (l : label) : bool :=
      (the request runs at once; needs a live worker)
    - at CallStart of a call that returned pool-closed: LStart
    - at CallReturn: LWaitDone resp. LSendQuit (needs quit closed)
-   - at ShutdownStart: LShutStart; at ShutdownReturn: the rest of Shutdown. *)
+   - at ShutdownStart: LShutStart; at ShutdownReturn: the rest of Shutdown
+   - at RunStart: LRunStart (the strand goroutine exists from here on); a Run that
+     returns the listen error: LRunFail. *)
 Inductive event :=
 | ECallStart (i : nat) (ran : bool)   (* ran: this call later returned a value (not pool-closed) *)
 | ECallReturn (i : nat) (ran : bool)
 | EShutStart
-| EShutReturn.
+| EShutReturn
+| ERunStart                           (* Run called *)
+| ERunFail.                           (* Run returned the listen error *)
 
 Definition event_labels (e : event) : list label :=
   match e with
@@ -260,7 +278,43 @@ Definition event_labels (e : event) : list label :=
   | ECallReturn i false => [LSendQuit i]
   | EShutStart => [LShutStart]
   | EShutReturn => [LWorkerQuit; LShutStrandDone; LShutListener; LShutDisconnect; LRunDone; LShutFinish]
+  | ERunStart => [LRunStart]
+  | ERunFail => [LRunFail]
+  end.
+
+(* `pend`: callers whose call started before Run had started the strand goroutine
+   and that later returned a value: their request is taken as soon as Run starts *)
+Fixpoint replay_evs (s : state) (pend : list nat) (evs : list event) : option state :=
+  match evs with
+  | [] => Some s
+  | e :: r =>
+    match e with
+    | ECallStart i true =>
+      match step s (LStart i) with
+      | None => None
+      | Some s1 =>
+        match worker s1 with
+        | WNotStarted => replay_evs s1 (pend ++ [i]) r
+        | _ => match exec s1 [LAccept i; LExec] with Some s2 => replay_evs s2 pend r | None => None end
+        end
+      end
+    | ERunStart =>
+      match exec s (LRunStart :: flat_map (fun i => [LAccept i; LExec]) pend) with
+      | Some s1 => replay_evs s1 [] r
+      | None => None
+      end
+    | EShutReturn =>
+      match exec s [LWorkerQuit; LShutStrandDone; LShutListener; LShutDisconnect] with
+      | Some s1 =>
+        match exec s1 (if run_done s1 then [LShutFinish] else [LRunDone; LShutFinish]) with
+        | Some s2 => replay_evs s2 pend r
+        | None => None
+        end
+      | None => None
+      end
+    | _ => match exec s (event_labels e) with Some s1 => replay_evs s1 pend r | None => None end
+    end
   end.
 
 Definition replay (calls_per_caller : list nat) (evs : list event) : option state :=
-  exec (init (map (fun k => (false, repeat OpQuery k)) calls_per_caller)) (flat_map event_labels evs).
+  replay_evs (init (map (fun k => (false, repeat OpQuery k)) calls_per_caller)) [] evs.
